@@ -386,3 +386,7 @@ def smoothed_after_change(V, cls, op):
     ops = dict(C4.COMMON_OPS)
     ops.update(C4.ACC_OPS)
     C4.run_op(V, cls, op, ops[op], ['smooth_fa_spectrum', 'smooth_fa_frequencies', 'smooth_fa_freqs'], prewarm=True)
+
+
+from pyvc.api import int_variant
+int_variant('C07', 'Signal.smooth_fa_spectrum', ['x'])
